@@ -653,6 +653,17 @@ def t15_rebinding() -> Iterator[Dict[str, Any]]:
                 suse2 = flat(star("b", lvl=1), star("w", lvl=1), alias("y", name)) + (cls("D", name) if name == "W" else [])
                 yield project([init, mod("b", 1, ops=flat(cls("W", body=[fn("draw")]), fn("enc")))] + second
                               + [mod("w", 1, ops=ops), mod("s", 1, ops=suse), mod("s2", 1, ops=suse2)], "T15", shape=shape, reexport=False, star=True)
+    # the package itself binds the name first (a pure-Python fallback class, a placeholder variable, an earlier re-export) and
+    # then re-exports the real thing under the same name: the last binding wins, for the package and for everybody importing it
+    firsts = {"class": flat(cls("W", body=[fn("fallback")])), "var": flat(var("W")), "reexport": [frm("a", "W", lvl=1)], "same-twice": [frm("b", "W", lvl=1)]}
+    for first, fops in firsts.items():
+        for second in ("from", "star"):
+            sops = [frm("b", "W", lvl=1)] if second == "from" else [star("b", lvl=1)]
+            yield project([mod("p", pkg=True, ops=flat(fops, sops), all=["W"]),
+                           mod("a", 1, ops=flat(cls("W", body=[fn("draw_a")]))),
+                           mod("b", 1, ops=flat(cls("W", body=[fn("draw")]))),
+                           mod("c", 1, ops=flat(frm("p", "W", "X"), imp("p", "m"), alias("y", "m.W"), cls("D", "X"), frm("p.b", "W", "Fast"), cls("E", "Fast")))],
+                          "T15", shape="bound-then-reexported", first=first, second=second)
     # a package that star-imports a fallback, then the real module, which imports a sibling half way through its body; another
     # module, analysed before the package, reaches the real module / the sibling first: with a plain import, with a from-import
     for first in ("import", "from", "sibling"):
